@@ -460,13 +460,18 @@ func (in *Interp) selectOp(fr *Frame, x *ssa.Select) Value {
 
 type intrinsic func(in *Interp, args []Value, caller *Frame) Value
 
-var intrinsics map[string]intrinsic
+// intrinsics maps qualified function names to engine-level models. Other files add to it from
+// their own init functions (RegisterIntrinsic).
+var intrinsics = map[string]intrinsic{}
+
+// RegisterIntrinsic adds (or replaces) an engine-level model of a function.
+func RegisterIntrinsic(name string, h intrinsic) { intrinsics[name] = h }
 var goHandlers = map[string]func(in *Interp, fr *Frame, g *ssa.Go){}
 
 const rt = "golang.org/x/crypto/internal/verifrt."
 
 func init() {
-	intrinsics = map[string]intrinsic{
+	base := map[string]intrinsic{
 		rt + "Symbolic": func(in *Interp, a []Value, _ *Frame) Value { return term.Bool(!in.concrete) },
 		rt + "U8":       func(in *Interp, a []Value, _ *Frame) Value { return in.newSym(8) },
 		rt + "U16":      func(in *Interp, a []Value, _ *Frame) Value { return in.newSym(16) },
@@ -717,8 +722,11 @@ func init() {
 		"unique.Make":   nil,
 		"errors.Is":     nil,
 	}
-	delete(intrinsics, "unique.Make")
-	delete(intrinsics, "errors.Is")
+	delete(base, "unique.Make")
+	delete(base, "errors.Is")
+	for k, v := range base {
+		intrinsics[k] = v
+	}
 }
 
 func strDesc(v Value) string {
